@@ -57,6 +57,50 @@ def clear_caches(db):
                 default_value=i.default_value, min_value=i.min_value, max_value=i.max_value, is_min_exclusive=i.is_min_exclusive, is_max_exclusive=i.is_max_exclusive, caption=i.caption,
             )
     Quantity._EMPTY_QUANTITY = None
+    if INTERLUDE and _LIGHT["on"]:
+        _light_interlude()
+
+
+_LIGHT = {"on": True}
+
+
+def _light_interlude():
+    """A handful of requests in the contradicting databases after every reset to a cold cache (a reset that
+    goes through the library's own invalidation also wipes state that is wrongly shared between databases)."""
+    from barril.units import ObtainQuantity, Scalar
+
+    _LIGHT["on"] = False  # (building B1 / B2 resets nothing recursively)
+    try:
+        for kind in ("B1", "B2"):
+            other = contradicting(kind)
+            keep = Quantity._EMPTY_QUANTITY
+            UnitDatabase.PushSingleton(other)
+            try:
+                for f in (
+                    lambda: other.Convert("volume flow rate", "1000ft3/d", "m3/s", 2.5),
+                    lambda: other.Convert("volume", "m3", "1000ft3", 2.5),
+                    lambda: Scalar(1.0, "1000ft3/d").GetValue("m3/s"),
+                    lambda: ObtainQuantity("k(ft3)"),
+                    lambda: other.GetDefaultCategory("1000ft3"),
+                    lambda: Scalar(1.0, "cm", "length").GetValue("km"),
+                    lambda: Scalar(1.0, "cm", "depth"),
+                    lambda: Scalar(1.0, "km", "length"),
+                    lambda: Scalar(1.0, "min", "time"),
+                    lambda: other.Convert("length", "km", "cm", 2.0),
+                    lambda: Scalar(1.0, "ft", "depth"),
+                    lambda: other.CheckCategoryUnit("length", "mi"),
+                    lambda: Scalar(2.0, "min", "time") < Scalar(1.0, "h", "time"),
+                    lambda: (Scalar(2.0, "cm") * Scalar(2.0, "cm")) * Scalar(1.0, "m"),
+                ):
+                    try:
+                        f()
+                    except Exception:
+                        pass
+            finally:
+                UnitDatabase.PopSingleton()
+                Quantity._EMPTY_QUANTITY = keep
+    finally:
+        _LIGHT["on"] = True
 
 
 def build(name):
@@ -318,6 +362,16 @@ def interlude():
                         attempt(lambda: Array([1.0, 2.0], u) / (Array([3.0, 4.0], v) * Array([3.0, 4.0], v)))
             attempt(lambda: Quantity.CreateEmpty())
             attempt(lambda: 2.0 / Array([4.0], "kg"))
+            for legacy, current, base, qt in (("1000ft3/d", "Mcf/d", "m3/s", "volume flow rate"), ("1000ft3", "Mcf", "m3", "volume"), ("k(ft3)", "Mcf", "m3", "volume")):
+                attempt(lambda: other.Convert(qt, legacy, base, 2.5))
+                attempt(lambda: other.Convert(qt, base, legacy, [2.5]))
+                attempt(lambda: other.Convert(qt, legacy, base, np.array([2.5])))
+                attempt(lambda: Scalar(1.0, legacy).GetValue(base))
+                attempt(lambda: Scalar(1.0, base, qt).CreateCopy(unit=legacy))
+                attempt(lambda: Array([1.0], base, qt).GetValues(legacy))
+                attempt(lambda: other.GetDefaultCategory(legacy))
+                attempt(lambda: ObtainQuantity(legacy))
+                attempt(lambda: other.GetInfo(qt, legacy))
         finally:
             UnitDatabase.PopSingleton()
             if keep is None:
